@@ -4,7 +4,7 @@
    declared, leaked; C07_Main: base_of = ordinal of the first allocation of test i, leaks_of = L_i = blocks allocated by the
    executed statements of test i and not released later in test i); `run` is the mirror of the plugin and the detector's table. *)
 From Coq Require Import NArith List Bool Permutation.
-From CppUVerif Require Import gen.Gen_Common C04_Model C04_Table C07_Model C07_Proofs C07_Tests C07_Main.
+From CppUVerif Require Import gen.Gen_Common C04_Model C04_Table C07_Model C07_Proofs C07_Tests C07_Main C07_Carry.
 Import ListNotations.
 Local Open Scope N_scope.
 
@@ -55,6 +55,16 @@ Theorem C07_flags_reset : forall s k, valid s = true ->
   let w := world_before_pre (s_tests s) k in w_ignore w = false /\ w_expected w = 0 /\ w_err w = false.
 Proof. exact flags_reset. Qed.
 Print Assumptions C07_flags_reset.
+
+(* ... at the level of whole runs: two programs that differ only in what ONE test declares (its EXPECT_N_LEAKS /
+   IGNORE_ALL_LEAKS_IN_TEST statements, anywhere in its phases) give every OTHER test the same failures, verdict and report *)
+Theorem C07_flags_do_not_carry_over : forall P Q t t' tail tail' k k' j,
+  strip_test t = strip_test t' ->
+  valid (mkS (P ++ t :: Q) tail k) = true -> valid (mkS (P ++ t' :: Q) tail' k') = true ->
+  j <> length P -> (j < length (P ++ t :: Q))%nat ->
+  item_same (nth j (o_tests (run (mkS (P ++ t :: Q) tail k))) no_item) (nth j (o_tests (run (mkS (P ++ t' :: Q) tail' k'))) no_item).
+Proof. exact flags_do_not_carry_over. Qed.
+Print Assumptions C07_flags_do_not_carry_over.
 
 (* a test that failed on its own gets no leak failure, whatever it leaked *)
 Theorem C07_already_failed_no_extra : forall s i, valid s = true -> (i < length (s_tests s))%nat ->
